@@ -686,7 +686,11 @@ def run(chk: Check):
         'recordings whose keys cannot tell volumes apart (V4 diffusion) order independence is proved for the reorderings '
         'that keep the order of records with the same key tuple (C20_order_independent_stable; necessary by '
         'C20_tied_keys_order_dependent), and C20_truncated_complete_only / C20_own_factors apply; a description of their '
-        'volumes by labels does not exist (the keys do not identify them)']
+        'volumes by labels does not exist (the keys do not identify them)',
+        'for recordings with tied key tuples the ORDER inside the kept records (every returned volume holds slice numbers '
+        '1..slice_max ascending: predicate volumes_by_slice_label, evaluated on every strict load) is proved only for distinct '
+        'keys (C20_strict_label_volumes); with ties C20_truncated_complete_only gives the kept records as a set (Permutation), '
+        'the per-volume order is compared through the model (exact index lists) and the predicate, not stated as a theorem']
     chk.build()
     chk.run_probes()
     if not chk.model_ok:
